@@ -1,7 +1,8 @@
 (* C15 - Flatten/inflate is an exact inverse for every nested container.
    Property theorems only; each closed by [exact] of a lemma from proofs/FlattenProofs.v / proofs/FlattenInst.v.
    Model: model/Flatten.v (what is not modelled is listed in its header). *)
-From TS Require Import model.Base model.Flatten proofs.FlattenProofs gen.FlattenGen proofs.FlattenInst.
+From TS Require Import model.Base model.Flatten model.FlattenPy proofs.FlattenProofs gen.FlattenGen proofs.FlattenInst
+  gen.FlattenRecGen model.FlattenGenObs proofs.InflatePieces proofs.FlattenRecInst proofs.InflateInst.
 From Coq Require Import Permutation.
 
 (* ---- the escaping of one path component ------------------------------------------------------------- *)
@@ -128,3 +129,98 @@ Example C15_example_keys_deleted :   (* a key listed in the entry but absent fro
   inflate_s [([112], EDict false [KInt 2; KStr [49; 48]; KBool true])] [([112; 47; 84; 114; 117; 101], Leaf 7)] [112]
   = Some (ODict false [(KBool true, Leaf 7)]).
 Proof. vm_compute. reflexivity. Qed.
+
+(* ==== the same statements about the code as it is now ====================================================================
+   gen/FlattenRecGen.v is rewritten on every run from /repo's flatten.py by translator/gen_flatten.py: _flatten, flatten,
+   _entry_to_container, _populate_container and inflate translated statement by statement over the Python vocabulary of
+   model/FlattenPy.v (insertion-ordered dicts, type tests, mutable containers referenced from a heap).
+   flatten_run_gen / inflate_run_gen (model/FlattenGenObs.v) only supply the fuel and read the returned reference back. *)
+
+(* The translated _flatten / flatten compute exactly the hand model's flatten: same dispatch (list, flattenable dict /
+   OrderedDict, anything else), same entry kind and key list per container, same path strings, and dict.update merges
+   what the model concatenates - for every object, every prefix, every fuel above the nesting depth. *)
+Theorem C15_generated_flatten_is_model : forall (o : obj) (prefix : pystr) (fuel : nat),
+  (hgt o < fuel)%nat -> flatten_top_gen fuel o prefix = Some (flatten_s o prefix).
+Proof. exact flatten_top_gen_correct. Qed.
+Print Assumptions C15_generated_flatten_is_model.
+
+Theorem C15_generated_flatten_run_is_model : forall (o : obj) (prefix : pystr),
+  flatten_run_gen o prefix = Some (flatten_s o prefix).
+Proof. exact flatten_run_gen_correct. Qed.
+Print Assumptions C15_generated_flatten_run_is_model.
+
+(* The translated _entry_to_container (dispatch order, fromkeys) and _populate_container (list: sorted by int(token);
+   dict: the _decode map and the loop over list(container.keys()) with `in` / del) are the model's populate, whatever the
+   stored values are. *)
+Theorem C15_generated_containers_are_model : forall (s : pystr) (e : entry) (vals : sdict ref) (ovals : list (token * obj)),
+  entry_to_container_gen e = Some (init_cont e) /\
+  populate_container_gen s (init_cont e) vals = populate_spec e vals /\
+  populate e ovals = option_map cont_obj (populate_spec e ovals).
+Proof.
+  intros s e vals ovals.
+  exact (conj (entry_to_container_gen_correct e) (conj (populate_container_gen_correct s e vals) (populate_is_spec e ovals))).
+Qed.
+Print Assumptions C15_generated_containers_are_model.
+
+(* The translated inflate - prefix filter, `prefix in flattened` shortcut, containers created once per manifest entry,
+   values grouped under "/".join(tokens[:-1]) in the order of chain(containers, flattened), containers populated IN PLACE
+   in the order of container_path_to_vals while other containers already hold references to them - returns what the hand
+   model returns, on all Python dicts (distinct keys) in which no path under the prefix is both a container and a leaf. *)
+Theorem C15_generated_inflate_refines_model : forall (m : sdict entry) (lm : sdict obj) (prefix : pystr) (o : obj),
+  NoDup (map fst m) -> NoDup (map fst lm) ->
+  (forall k, In k (map fst m) -> In k (map fst lm) -> split_head k <> encode prefix) ->
+  inflate_s m lm prefix = Some o -> inflate_run_gen m lm prefix = Some o.
+Proof. exact inflate_gen_refines. Qed.
+Print Assumptions C15_generated_inflate_refines_model.
+
+(* The round trip over the translated functions: C15_inflate_flatten with flatten and inflate replaced by the generated
+   terms.  Every object, every prefix, every reordering of both dicts. *)
+Theorem C15_generated_inflate_flatten : forall (o : obj) (prefix : pystr) fm fl ms ls,
+  wf_obj o -> flatten_run_gen o prefix = Some (fm, fl) ->
+  Permutation ms fm -> Permutation ls fl ->
+  inflate_run_gen ms ls prefix = Some o.
+Proof. exact generated_inflate_flatten. Qed.
+Print Assumptions C15_generated_inflate_flatten.
+
+(* ... inside a larger snapshot manifest (C15_inflate_flatten_embedded over the generated terms, string paths) *)
+Theorem C15_generated_inflate_flatten_embedded : forall (o : obj) (prefix : pystr) fm fl (ms : sdict entry) (ls : sdict obj),
+  wf_obj o -> flatten_run_gen o prefix = Some (fm, fl) ->
+  NoDup (map fst ms) -> NoDup (map fst ls) ->
+  (forall k e, split_head k = encode_gen prefix -> (In (k, e) ms <-> In (k, e) fm)) ->
+  (forall k x, split_head k = encode_gen prefix -> (In (k, x) ls <-> In (k, x) fl)) ->
+  inflate_run_gen ms ls prefix = Some o.
+Proof. exact generated_inflate_flatten_embedded. Qed.
+Print Assumptions C15_generated_inflate_flatten_embedded.
+
+(* ... after metadata serialization (PARTIAL in the same sense as C15_inflate_flatten_via_metadata_partial) *)
+Theorem C15_generated_inflate_flatten_via_metadata_partial :
+  forall (codec : list (pystr * entry) -> option (list (pystr * entry))),
+  (forall ms, exists ms', codec ms = Some ms' /\ Permutation ms' ms) ->
+  forall (o : obj) (prefix : pystr), wf_obj o ->
+  exists fm fl ms', flatten_run_gen o prefix = Some (fm, fl) /\ codec fm = Some ms' /\
+                    inflate_run_gen ms' fl prefix = Some o.
+Proof.
+  intros codec Hc o prefix W. destruct (Hc (fst (flatten_s o prefix))) as [ms' [E P]].
+  exists (fst (flatten_s o prefix)), (snd (flatten_s o prefix)), ms'.
+  assert (F : flatten_run_gen o prefix = Some (fst (flatten_s o prefix), snd (flatten_s o prefix)))
+    by (rewrite flatten_run_gen_correct; destruct (flatten_s o prefix); reflexivity).
+  exact (conj F (conj E (generated_inflate_flatten o prefix _ _ ms' _ W F P (Permutation_refl _)))).
+Qed.
+Print Assumptions C15_generated_inflate_flatten_via_metadata_partial.
+
+(* ... and a dict the translated _should_flatten_dict rejects is stored whole and returned as the identical leaf *)
+Theorem C15_generated_opaque_dict_kept_whole : forall ord kvs prefix, should_flatten_gen (map fst kvs) = false ->
+  flatten_run_gen (ODict ord kvs) prefix = Some ([], [(encode_gen prefix, ODict ord kvs)]) /\
+  inflate_run_gen [] [(encode_gen prefix, ODict ord kvs)] prefix = Some (ODict ord kvs).
+Proof. exact generated_opaque_dict_whole. Qed.
+Print Assumptions C15_generated_opaque_dict_kept_whole.
+
+(* the generated terms run: the adversarial example flattened by the translated flatten, both dicts reversed, inflated
+   by the translated inflate; a path that is both a container and a leaf (outside the hand model) also runs: the leaf
+   overwrites the container in its parent, keeping the container's position *)
+Example C15_example_generated :
+  option_map (fun r => map fst (snd r)) (flatten_run_gen ex_obj [112]) = Some (map fst (snd (flatten_s ex_obj [112]))) /\
+  (r <- flatten_run_gen ex_obj [112] ;; inflate_run_gen (rev (fst r)) (rev (snd r)) [112]) = Some ex_obj /\
+  inflate_run_gen [([112], EList); ([112; 47; 48], EList)] [([112; 47; 49], Leaf 1); ([112; 47; 48], Leaf 2)] [112]
+    = Some (OList [Leaf 2; Leaf 1]).
+Proof. vm_compute. repeat split. Qed.
